@@ -79,7 +79,14 @@ STEPS = [1e3, 5e3, 15e3, 3e4, 6e4, 3e5, 9e5, 18e5, 36e5, 108e5, 216e5, 432e5,
 
 TZDATA = ["UTC", "US/Eastern", "Asia/Kolkata", "Australia/Lord_Howe", "Pacific/Chatham",
           "America/St_Johns", "Asia/Kathmandu", "Europe/London", "Africa/Casablanca",
-          "Pacific/Apia", "America/Sao_Paulo"]
+          "Pacific/Apia", "America/Sao_Paulo",
+          # DST starting at local midnight
+          "America/Havana", "America/Santiago",
+          # west of UTC without / with DST
+          "Pacific/Honolulu", "America/Los_Angeles",
+          # UTC look-alikes: offset 0 and no DST today, but not always in the past
+          "Africa/Sao_Tome", "Africa/Monrovia", "America/Danmarkshavn", "Africa/Bissau"]
+NO_DST_ZONES = ("UTC", "Asia/Kolkata", "Asia/Kathmandu", "Pacific/Honolulu")
 
 EPOCH = datetime.datetime(1970, 1, 1)
 OP_DEADLINE_S = 5
@@ -134,6 +141,19 @@ def _tzdata_transitions(name, year):
             prev = off
         t = t2
     return out
+
+
+_ALL_TR = {}
+
+
+def _tzdata_all_transitions(name):
+    """Every offset change of `name` between 1971 and 2037 (cached per worker)."""
+    if name not in _ALL_TR:
+        out = []
+        for y in range(1971, 2038):
+            out.extend(_tzdata_transitions(name, y))
+        _ALL_TR[name] = out
+    return _ALL_TR[name]
 
 
 def _fmt_off(minutes_east):
@@ -216,9 +236,11 @@ def gen_zone(rng, t0, t1):
                 except OverflowError:
                     continue
                 if kind == "gap":
-                    hot.extend([base, base + shift / 2, base + shift, base - datetime.timedelta(milliseconds=1)])
+                    hot.extend([base, base + shift / 2, base + shift, base - datetime.timedelta(milliseconds=1),
+                                base + shift * 3 / 2, base - shift / 2])  # incl. one shift later / earlier
                 else:
-                    hot.extend([base - shift, base - shift / 2, base, base - datetime.timedelta(milliseconds=1)])
+                    hot.extend([base - shift, base - shift / 2, base, base - datetime.timedelta(milliseconds=1),
+                                base + shift / 2, base - shift * 3 / 2])
     zone["tz"] = _posix_rule(offset, dst, zone.get("start"), zone.get("end"))
     return zone, hot
 
@@ -335,13 +357,18 @@ def gen_plan(rng, tier):
         # move the domain onto one of the zone's real transitions
         y = rng.randrange(1971, 2037)
         trs = _tzdata_transitions(zone["tz"], y)
+        allt = _tzdata_all_transitions(zone["tz"])
+        if allt and (not trs or len(allt) <= 6):
+            # zones with only a handful of historical offset changes: aim at one of them
+            trs = allt
         if trs:
             tr, delta = rng.choice(trs)
             span = t1 - t0
             t0 = _clip(_ms(tr - span * rng.random()))
             t1 = _clip(t0 + span)
             sh = datetime.timedelta(minutes=abs(delta))
-            hot = [tr, tr + sh / 2, tr - sh / 2, tr - sh, tr + sh, tr - datetime.timedelta(milliseconds=1)]
+            hot = [tr, tr + sh / 2, tr - sh / 2, tr - sh, tr + sh, tr - datetime.timedelta(milliseconds=1),
+                   tr + sh * 3 / 2, tr - sh * 3 / 2]
     pick = _Picker(rng, t0, t1, hot)
     span_ms = pick.span_ms
     ops = []
@@ -733,7 +760,7 @@ def execute(plan):
     under_offset = st.get("ops_under_offset", 0)
     counters["fault:tz_offset:configured"] = 1 if zone["tz"] != "UTC" else 0
     counters["fault:tz_offset:fired"] = 1 if under_offset else 0
-    has_dst = bool(zone.get("dst_min")) or (zone["kind"] == "tzdata" and zone["tz"] not in ("UTC", "Asia/Kolkata", "Asia/Kathmandu"))
+    has_dst = bool(zone.get("dst_min")) or (zone["kind"] == "tzdata" and zone["tz"] not in NO_DST_ZONES)
     counters["fault:dst_gap:configured"] = 1 if has_dst else 0
     counters["fault:dst_fold:configured"] = 1 if has_dst else 0
     counters["fault:dst_gap:fired"] = 1 if st.get("dst_gap_touched") else 0
